@@ -10,6 +10,7 @@ package c16
 import (
 	"fmt"
 	"math"
+	"os"
 	"strconv"
 	"strings"
 	"testing"
@@ -227,6 +228,13 @@ func (c Case) sql() string {
 
 // ---- generator ------------------------------------------------------------------------------
 
+// avoid reports whether the generator must steer clear of a confirmed-defect shape (an open finding).
+// C16_NOAVOID=1 switches the steering off: the known-finding filter alone must then explain every
+// discrepancy, which is how the narrowness of features() is checked.
+func avoid(feature string) bool {
+	return os.Getenv("C16_NOAVOID") == "" && pbt.Open("C16", feature)
+}
+
 var narrowKinds = map[string]bool{"int8": true, "int16": true, "uint8": true, "uint16": true}
 
 const two53 = int64(1) << 53
@@ -240,7 +248,7 @@ func numVariants(t *rapid.T, n float64, label string) gen.Val {
 	if integral {
 		cands = append(cands, gen.Int(int64(n)), gen.Int(int64(n)), gen.Int(int64(n)), gen.Str(fmtNum(n)+".0"), gen.Int64(int64(n)))
 		ks := []string{"int32", "uint32", "uint", "uint64"}
-		if !pbt.Open("C16", "narrow-int-key") {
+		if !avoid("narrow-int-key") {
 			ks = append(ks, "int8", "int16", "uint8", "uint16")
 		}
 		k := ks[rapid.IntRange(0, len(ks)-1).Draw(t, label+"xk")]
@@ -262,7 +270,7 @@ func numVariants(t *rapid.T, n float64, label string) gen.Val {
 func hostilePool(composite bool) []string {
 	pool := gen.HostileStrings
 	pool = append(append([]string{}, pool...), "a\x1fs:b", "b\x1fs:c", "s:b", "n:1", "1", "1.0", "<nil>\x1f<nil>")
-	if composite && pbt.Open("C16", "sep-collision") {
+	if composite && avoid("sep-collision") {
 		var out []string
 		for _, s := range pool {
 			if !strings.Contains(s, "\x1f") {
@@ -281,7 +289,7 @@ func keyComponent(t *rapid.T, composite bool, label string) gen.Val {
 		return numVariants(t, float64(rapid.IntRange(-1, 3).Draw(t, label+"n")), label)
 	case x < 11:
 		return numVariants(t, float64(rapid.IntRange(-3, 5).Draw(t, label+"h"))+0.5, label)
-	case x < 12 && !pbt.Open("C16", "key-above-2p53"):
+	case x < 12 && !avoid("key-above-2p53"):
 		d := int64(rapid.IntRange(0, 2).Draw(t, label+"big"))
 		if rapid.Bool().Draw(t, label+"bigf") {
 			return gen.Float(float64(two53))
@@ -308,7 +316,7 @@ func lookalike(t *rapid.T, v gen.Val, composite bool, label string) gen.Val {
 		case 0:
 			return gen.Str("s:" + v.S)
 		case 1:
-			if !(composite && pbt.Open("C16", "sep-collision")) {
+			if !(composite && avoid("sep-collision")) {
 				return gen.Str(v.S + "\x1f")
 			}
 		}
@@ -341,7 +349,7 @@ func genCase(t *rapid.T) Case {
 	}
 	c.Nested = rapid.IntRange(0, 9).Draw(t, "nested") == 0
 	c.Reversed = rapid.IntRange(0, 7).Draw(t, "reversed") == 0
-	if c.Reversed && pbt.Open("C16", "on-reversed") && (!sameNames || c.Nested) {
+	if c.Reversed && avoid("on-reversed") && (!sameNames || c.Nested) {
 		c.Reversed = false
 	}
 	if !c.Reversed {
@@ -429,7 +437,7 @@ func genCase(t *rapid.T) Case {
 				tu[j] = o[(j+rapid.IntRange(0, 1).Draw(t, label+"bs"))%nk]
 			}
 		default:
-			if nk > 1 && !pbt.Open("C16", "sep-collision") {
+			if nk > 1 && !avoid("sep-collision") {
 				// aimed at "<tag><value>" parts joined by the unit separator: (u+US+"s:"+m, q) vs (u, m+US+tag(q))
 				j := rapid.IntRange(0, nk-2).Draw(t, label+"cj")
 				u, q := tu[j], tu[j+1]
